@@ -1284,15 +1284,17 @@ func (w *c07World) step() bool {
 				tag = ":swa-parallel"
 			}
 		}
+		rec := []int{}
+		s.mu.Lock() // slot tags and records are written by client goroutines under Server.mu
 		for _, t := range w.slotTag {
 			if t == "after-failed-shift" {
 				tag = ":after-failed-shift"
 			}
 		}
-		rec := []int{}
 		for i := range s.cache.slots {
 			rec = append(rec, len(s.cache.slots[i].Inputs))
 		}
+		s.mu.Unlock()
 		w.fail("processbatch-error:"+kind+tag,
 			fmt.Sprintf("processBatch returned %q (Server.run panics on it: the runner process dies); inputs recorded per slot %v, %d cells per slot", err.Error(), rec, w.cfg.NumCtx),
 			map[string]any{"recorded_inputs_per_slot": rec})
